@@ -4,6 +4,7 @@
 pub mod ddmin;
 pub mod findings;
 pub mod hash;
+pub mod isolate;
 pub mod panics;
 pub mod par;
 pub mod refview;
